@@ -4,7 +4,7 @@
    are now regression examples (each replayed on /repo by the harness corpus). *)
 From Coq Require Import String Ascii List Arith NArith ZArith Bool Lia Permutation.
 From PV Require Import Lib.Strings Lib.Decimal Model.PdbRead Model.Group Model.PdbSpec
-  Proofs.PdbRead Proofs.Group Proofs.Ingest.
+  Proofs.PdbRead Proofs.Group Proofs.Ingest Proofs.Ingest2.
 Import ListNotations.
 Local Open Scope string_scope.
 
@@ -162,3 +162,93 @@ Proof.
   assert (S : serials_of (ingest py_float_ok wtab false w_alias) = [1]%Z) by (vm_compute; reflexivity).
   rewrite E in S. simpl in S. apply (f_equal (@List.length Z)) in S. rewrite map_length, P in S. discriminate.
 Qed.
+
+(* ==== G1': all line lists ======================================================== *)
+
+Definition conclusion2 (tab : deftab) (lines : list string) : Prop :=
+  exists rs, ingest py_float_ok tab false lines = Done rs /\
+    Permutation (map a_src (all_atoms rs)) (map strip (cols_read2 py_float_ok lines)).
+
+(* non-vacuity of guard2 outside the old G1: leading blanks and a tab in front of
+   coordinate lines, a whitespace-format line read through the fallback, a line cut
+   inside the z field, a lower-case record name (unknown record), CRLF, blank line *)
+Definition ex2 : list string :=
+  [ "   ATOM      1  N   ALA A   1      11.000  12.000  13.000  1.00  0.00           N" ++ nl;
+    bs [9]%N ++ "ATOM      2  CA  ALA A   1      12.000  12.000  13.000" ++ bs [13; 10]%N;
+    "ATOM      3 1 2 3 4 5" ++ nl;
+    "atom      4  O   ALA A   1      14.000  12.000  13.000  1.00  0.00           O" ++ nl;
+    "  " ++ nl;
+    "ATOM      5  N   GLY A   2      15.000  12.000  13.5" ++ nl;
+    " END" ++ nl ].
+
+Lemma ex2_guard :
+  guard2 py_float_ok wtab ex2 = true /\
+  forallb (g_line py_float_ok) ex2 = false /\
+  existsb (raises py_float_ok) ex2 = false /\
+  serials_of (ingest py_float_ok wtab false ex2) = [1; 2; 5; 3]%Z /\
+  List.length (cols_read2 py_float_ok ex2) = 4 /\
+  map (spec_line py_float_ok) (cols_read2 py_float_ok ex2) =
+    [ Some "ATOM      1  N   ALA A   1      11.000  12.000  13.000  1.00  0.00           N";
+      Some "ATOM      2  CA  ALA A   1      12.000  12.000  13.000";
+      Some "ATOM      3 1 2 3 4 5   3          1       2       3     4     5";
+      Some "ATOM      5  N   GLY A   2      15.000  12.000  13.5" ].
+Proof.
+  split; [vm_compute; reflexivity|]. split; [vm_compute; reflexivity|].
+  split; [vm_compute; reflexivity|]. split; [vm_compute; reflexivity|].
+  split; vm_compute; reflexivity.
+Qed.
+
+(* a line that raises makes the whole read fail loudly *)
+Definition ex2_loud : list string :=
+  [ "ATOM      1  N   ALA A   1      11.000  12.000  13.000  1.00  0.00           N" ++ nl;
+    "ATOM      2  CA  ALA A   1      12.000  12.0" ++ nl ].
+
+Lemma ex2_loud_raises :
+  guard2 py_float_ok wtab ex2_loud = true /\ existsb (raises py_float_ok) ex2_loud = true /\
+  ingest py_float_ok wtab false ex2_loud = Raised "ValueError".
+Proof. split; [vm_compute; reflexivity|]. split; vm_compute; reflexivity. Qed.
+
+(* ---- regression: a coordinate line without coordinates (was C07-F7) ------------- *)
+
+Definition w_short : list string := eol
+  [ "ATOM      1  N   ALA A   1      11.000  12.000  13.000  1.00  0.00           N";
+    "ATOM      2  CA  ALA A   1";
+    "ATOM      3  N   GLY A   2      13.000  12.000  13.000  1.00  0.00           N" ].
+
+(* ---- regression: MODEL records without a number in columns 11-14 (was C07-F8) --- *)
+
+Definition w_model_free : list string := eol
+  [ "MODEL 1";
+    "ATOM      1  N   ALA A   1      11.000  12.000  13.000  1.00  0.00           N";
+    "ENDMDL";
+    "MODEL 2";
+    "ATOM      3  N   GLY A   2      13.000  12.000  13.000  1.00  0.00           N";
+    "ENDMDL" ].
+
+Lemma all_lines_regressions :
+  (guard2 py_float_ok wtab w_short = true /\
+   existsb (raises py_float_ok) w_short = true /\
+   ingest py_float_ok wtab false w_short = Raised "ValueError") /\
+  (guard2 py_float_ok wtab w_model_free = true /\
+   existsb (raises py_float_ok) w_model_free = false /\
+   serials_of (ingest py_float_ok wtab false w_model_free) = [1]%Z /\
+   List.length (cols_read2 py_float_ok w_model_free) = 1).
+Proof.
+  split; [split; [vm_compute; reflexivity|]; split; vm_compute; reflexivity|].
+  split; [vm_compute; reflexivity|]. split; [vm_compute; reflexivity|].
+  split; vm_compute; reflexivity.
+Qed.
+
+(* a HET record its parser rejects (blank atom count) in front of HETATM records, with
+   the other parsers' behaviour explicit: the HETATM records are all read *)
+Definition w_het : list string := eol
+  [ "HET    SO4  A 101           SULFATE";
+    "ATOM      1  N   ALA A   1      11.000  12.000  13.000  1.00  0.00           N";
+    "HETATM    2  S   SO4 A 101      12.000  12.000  13.000  1.00  0.00           S";
+    "HET    SO4  A 102           SULFATE";
+    "HETATM    3  S   SO4 A 102      13.000  12.000  13.000  1.00  0.00           S" ].
+
+Lemma het_regression :
+  serials_of (ingestG py_float_ok (fun _ => true) wtab false w_het) = [1; 2; 3]%Z /\
+  serials_of (ingestG py_float_ok (fun _ => false) wtab false w_het) = [1; 2; 3]%Z.
+Proof. split; vm_compute; reflexivity. Qed.
